@@ -436,6 +436,68 @@ theorem lca_self {g : Graph} (hb : Built g) {c : Commit} (h : c ∈ g) :
 example : findCommonAncestor crissCrossGraph ⟨30, [10], 2, [(1, 10)]⟩ c50 = .ok (some 30) := by
   simp [findCommonAncestor, c50, descKeys, Commit.key, mergeWalk, klt]
 
+/-! ### the merge base never changes under later commits -/
+
+/-- for a commit stored in `g`, "ancestor or self" means the same in every later graph -/
+theorem ancStar_stable {g g' : Graph} (hb : Built g) (hr : C18.Reach g g') {a c : Addr} {cc : Commit}
+    (hc : lookup g c = some cc) : AncStar g' a c ↔ AncStar g a c := by
+  have hc' := (C18.addr_stable hb hr hc).1
+  have hs : (lookup g c).isSome := by rw [hc]; rfl
+  have hs' : (lookup g' c).isSome := by rw [hc']; rfl
+  unfold AncStar
+  rw [C18.ancestors_stable hb hr hs]
+  constructor
+  · rintro (⟨e, _⟩ | h)
+    · exact .inl ⟨e, hs⟩
+    · exact .inr h
+  · rintro (⟨e, _⟩ | h)
+    · exact .inl ⟨e, hs'⟩
+    · exact .inr h
+
+/-- **lca_stable.**  The merge base of two stored commits is a function of those two commits alone:
+whatever is committed afterwards (any number of commits, on any branch), `FindCommonAncestor`
+returns the same answer for them — in particular a merge base computed before a concurrent writer
+added commits is still the merge base afterwards. -/
+theorem lca_stable {g g' : Graph} (hb : Built g) (hr : C18.Reach g g') {c1 c2 : Commit}
+    (h1 : c1 ∈ g) (h2 : c2 ∈ g) :
+    findCommonAncestor g' c1 c2 = findCommonAncestor g c1 c2 := by
+  have hi := hb.inv
+  have hl1 := lookup_self_of_inv hi h1
+  have hl2 := lookup_self_of_inv hi h2
+  obtain ⟨hl1', hb'⟩ := C18.addr_stable hb hr hl1
+  have hl2' := (C18.addr_stable hb hr hl2).1
+  have h1' : c1 ∈ g' := (lookup_some hl1').1
+  have h2' : c2 ∈ g' := (lookup_some hl2').1
+  obtain ⟨r, hr0, hs⟩ := lca_sound_complete hb h1 h2
+  obtain ⟨r', hr0', hs'⟩ := lca_sound_complete hb' h1' h2'
+  have hcom : ∀ a, Common g' c1.addr c2.addr a ↔ Common g c1.addr c2.addr a := fun a => by
+    unfold Common
+    rw [ancStar_stable hb hr hl1, ancStar_stable hb hr hl2]
+  have hs'' : LcaSpec g c1.addr c2.addr r' := by
+    cases r' with
+    | none => intro a hca; exact hs' a ((hcom a).2 hca)
+    | some a =>
+      obtain ⟨ac, hla, hca, hmax⟩ := hs'
+      have hcag := (hcom a).1 hca
+      obtain ⟨ac0, hla0⟩ := ancStar_stored hi hcag.1
+      have : ac0 = ac := by
+        have := (C18.addr_stable hb hr hla0).1
+        rw [hla] at this; exact (Option.some.inj this).symm
+      subst this
+      refine ⟨ac0, hla0, hcag, ?_⟩
+      intro b bc hcb hlb
+      exact hmax b bc ((hcom b).2 hcb) (C18.addr_stable hb hr hlb).1
+  rw [hr0, hr0', lcaSpec_unique hs hs'']
+
+/-- non-vacuity of `lca_stable`: one more merge commit on top of the criss-cross graph -/
+def crissCrossPlus : Graph := match addCommit crissCrossGraph 60 [40, 50] with | .ok g => g | .error _ => []
+theorem crissCrossPlus_ok : addCommit crissCrossGraph 60 [40, 50] = .ok crissCrossPlus := by rfl
+example : C18.Reach crissCrossGraph crissCrossPlus ∧ crissCrossPlus.length = 6 ∧
+    findCommonAncestor crissCrossPlus c40 c50 = .ok (some 30) :=
+  ⟨.step .refl crissCrossPlus_ok, by decide,
+   (lca_stable (C18.built_of_build crissCross_ok) (.step .refl crissCrossPlus_ok) (by decide) (by decide)).trans
+     closure_walk_40_50⟩
+
 /-! ### non-vacuity -/
 
 example : Built crissCrossGraph ∧ c40 ∈ crissCrossGraph ∧ c50 ∈ crissCrossGraph ∧
